@@ -570,6 +570,9 @@ func (tree *MutableTree) IsUpgradeable() (bool, error) {
 	return !tree.skipFastStorageUpgrade && (!tree.ndb.hasUpgradedToFastStorage() || shouldForce), nil
 }
 
+// fastNodePurgeChunk is how many stale fast node keys are read before the iterator is closed and they are deleted.
+const fastNodePurgeChunk = 1024
+
 // enableFastStorageAndCommitIfNotEnabled if nodeDB doesn't mark fast storage as enabled, enable it, and commit the update.
 // Checks whether the fast cache on disk matches latest live state. If not, deletes all existing fast nodes and repopulates them
 // from latest tree.
@@ -588,17 +591,36 @@ func (tree *MutableTree) enableFastStorageAndCommitIfNotEnabled() (bool, error) 
 	// downgrade and subsequent re-upgrade, we cannot know for sure which fast nodes have been removed while downgraded,
 	// Therefore, there might exist stale fast nodes on disk. As a result, to avoid persisting the stale state, it might
 	// be worth to delete the fast nodes from disk.
-	fastItr := NewFastIterator(nil, nil, true, tree.ndb)
-	defer fastItr.Close()
+	// The deletions go through the batch, which is written to the store whenever it exceeds the flush
+	// threshold, and the store contract forbids writes while an iterator is open (MemDB blocks them
+	// for good): the keys are read in bounded chunks and deleted once the iterator is closed.
 	var deletedFastNodes uint64
-	for ; fastItr.Valid(); fastItr.Next() {
-		deletedFastNodes++
-		if err := tree.ndb.DeleteFastNode(fastItr.Key()); err != nil {
+	var start []byte
+	keys := make([][]byte, 0, fastNodePurgeChunk)
+	for {
+		keys = keys[:0]
+		fastItr := NewFastIterator(start, nil, true, tree.ndb)
+		for ; fastItr.Valid() && len(keys) < fastNodePurgeChunk; fastItr.Next() {
+			keys = append(keys, append([]byte{}, fastItr.Key()...))
+		}
+		if err := fastItr.Error(); err != nil {
+			fastItr.Close()
 			return false, err
 		}
-	}
-	if err := fastItr.Error(); err != nil {
-		return false, err
+		if err := fastItr.Close(); err != nil {
+			return false, err
+		}
+		for _, key := range keys {
+			deletedFastNodes++
+			if err := tree.ndb.DeleteFastNode(key); err != nil {
+				return false, err
+			}
+		}
+		if len(keys) < fastNodePurgeChunk {
+			break
+		}
+		// continue right after the last key that was deleted
+		start = append(keys[len(keys)-1], 0)
 	}
 
 	if err := tree.enableFastStorageAndCommit(); err != nil {
